@@ -408,6 +408,13 @@ func Run(tier string, seed uint64, modelPath, repo string, out *res.Result) erro
 	if err != nil {
 		return err
 	}
+	// corpus: minimal documents of past defects, run first on every tier
+	for _, c := range corpus() {
+		out.Hit("corpus")
+		if err := oneCase(m, c.doc, c.rs, 0, fonts, out); err != nil {
+			return err
+		}
+	}
 	for i := 0; i < n; i++ {
 		sub := r.Sub()
 		cs := sub.Seed()
@@ -473,7 +480,9 @@ func oneCase(m *mp.Model, doc *c02.ClassF, rs ruleSet, seed uint64, fonts text.F
 	out.Sample(map[string]interface{}{"html": doc.HTML, "pages": len(impl)})
 
 	// ---- judges on the implementation's pages
-	judge(doc, rs, impl, seed, out)
+	if err := judge(m, doc, rs, impl, seed, out); err != nil {
+		return err
+	}
 
 	// ---- correspondence with the model
 	req := sx.L(sx.A("c12"), sx.I(80), sx.B(true), sx.I(2*(doc.NTok+40)+2), rs.x(), doc.Root.X())
@@ -485,7 +494,11 @@ func oneCase(m *mp.Model, doc *c02.ClassF, rs ruleSet, seed uint64, fonts text.F
 	if err != nil {
 		return err
 	}
-	diff := ""
+	// Classification (BUILDER_GUIDE): where a theorem of Props/C12 proves that the model satisfies the
+	// property on class F, an implementation/model difference is a violation of the property by the
+	// implementation (kind "judge", naming the theorem); "corr" is kept for what is modelled but not
+	// proved against a spec (where exactly the breaks fall: page count, lines per page, y).
+	diff, thm := "", ""
 	switch {
 	case !done:
 		diff = "model page loop did not finish"
@@ -495,13 +508,21 @@ func oneCase(m *mp.Model, doc *c02.ClassF, rs ruleSet, seed uint64, fonts text.F
 	pagesLoop:
 		for i := range impl {
 			a, b := impl[i], mpages[i]
-			if a.right != b.right || a.blank != b.blank || a.name != b.name || a.index != b.index || a.first != (b.index == 0) {
-				diff = fmt.Sprintf("page %d: page type differs", i)
+			if a.right != b.right || a.index != b.index || a.first != (b.index == 0) {
+				diff, thm = fmt.Sprintf("page %d: side / index / first differ", i), "sides_alternate, first_only_index0"
+				break
+			}
+			if a.blank != b.blank {
+				diff, thm = fmt.Sprintf("page %d: blank differs", i), "forced_side_honoured, no_blank_without_side"
+				break
+			}
+			if a.name != b.name {
+				diff, thm = fmt.Sprintf("page %d: page name: implementation n%d, model n%d", i, a.name, b.name), "named_page_change_forces_break, next_page_carries_name"
 				break
 			}
 			for k := 0; k < 8; k++ {
 				if math.Abs(a.geom[k]-b.geom[k]) > geomTol {
-					diff = fmt.Sprintf("page %d: geometry component %d: implementation %v, model %v", i, k, a.geom[k], b.geom[k])
+					diff, thm = fmt.Sprintf("page %d: geometry component %d: implementation %v, model %v", i, k, a.geom[k], b.geom[k]), "cascaded_from_matching_rule, page_box_equation"
 					break pagesLoop
 				}
 			}
@@ -517,13 +538,51 @@ func oneCase(m *mp.Model, doc *c02.ClassF, rs ruleSet, seed uint64, fonts text.F
 			}
 			want := fmt.Sprintf("%d/%d", b.counter, len(mpages))
 			if len(a.margin) != 1 || a.margin[0] != want {
-				diff = fmt.Sprintf("page %d: margin box text %v, model %s", i, a.margin, want)
+				diff, thm = fmt.Sprintf("page %d: margin box text %v, model %s", i, a.margin, want), "page_counter_is_index"
 				break
 			}
 		}
 	}
-	if diff != "" {
+	if diff != "" && thm != "" {
+		out.Add(res.Finding{Kind: "judge", Op: "judge:model-proved-spec", Input: doc.HTML, Impl: fmtImpl(impl), Model: fmtModel(mpages),
+			Reason: diff + " (the model satisfies the property here by theorem(s) " + thm + " of WR.Props.C12)", Seed: seed})
+	} else if diff != "" {
 		out.Add(res.Finding{Kind: "corr", Op: "corr:pages", Input: doc.HTML, Impl: fmtImpl(impl), Model: fmtModel(mpages), Reason: diff, Seed: seed})
 	}
 	return nil
+}
+
+type corpusCase struct {
+	doc *c02.ClassF
+	rs  ruleSet
+}
+
+func pxDecl(prop string, v float64) decl {
+	return decl{fmt.Sprintf("%s:%vpx", prop, v), []sx.X{d1(prop, "px", v, false)}}
+}
+
+// corpus: /verif/corpus/C12/*.json document the same inputs.
+func corpus() []corpusCase {
+	base := func(h float64) rule {
+		return rule{sels: []sel{{}}, decls: []decl{
+			{fmt.Sprintf("size:200px %vpx", h), []sx.X{d1("size-w", "px", 200, false), d1("size-h", "px", h, false)}},
+			{"margin:10px", []sx.X{d1("margin-top", "px", 10, false), d1("margin-right", "px", 10, false), d1("margin-bottom", "px", 10, false), d1("margin-left", "px", 10, false)}}},
+			extra: `;@top-center{content:counter(page) "/" counter(pages);font:10px/10px Ahem}`}
+	}
+	named := func(k int, top float64) rule {
+		return rule{sels: []sel{{name: k}}, decls: []decl{pxDecl("margin-top", top)}}
+	}
+	S := c02.Style{}
+	var out []corpusCase
+	add := func(root *c02.Box, rs ruleSet) {
+		out = append(out, corpusCase{c02.Render(root, rs.css(), 10, 180), rs})
+	}
+	// fixed 67f534b (F12-1): leaving a named page for the unnamed page
+	add(c02.Doc(c02.P(c02.Style{Pg: 1}, 1), c02.P(S, 1)), ruleSet{rules: []rule{base(200), named(1, 30)}})
+	// ... the pages after it must not keep the name
+	add(c02.Doc(c02.P(c02.Style{Pg: 1}, 2), c02.P(S, 12)), ruleSet{rules: []rule{base(120), named(1, 30)}})
+	// unnamed -> named -> unnamed, nested boxes, with a forced side in between
+	add(c02.Doc(c02.P(S, 2), c02.B(c02.Style{Pg: 2}, c02.P(c02.Style{Pg: 2}, 3), c02.P(c02.Style{Pg: 2, BB: "left"}, 2)), c02.B(S, c02.P(S, 2), c02.P(c02.Style{Pg: 1}, 1)), c02.P(S, 1)),
+		ruleSet{rules: []rule{base(100), named(1, 30), named(2, 20)}})
+	return out
 }
